@@ -13,7 +13,10 @@ def run(ctx, rnd):
     def tr(msgid, domain=None, mapping=None, context=None, target_language=None, default=None):
         calls.append(dict(msgid=msgid, domain=domain, mapping=mapping, context=context, target=target_language, default=default))
         if isinstance(msgid, str):
-            return "T[%s]" % msgid
+            out = "T[%s]" % msgid
+            for k, v in (mapping or {}).items():
+                out = out.replace("${%s}" % k, str(v))
+            return out
         if getattr(msgid, "is_msg", False):
             return "M<&>"
         return msgid
@@ -59,6 +62,40 @@ def run(ctx, rnd):
     check("implicit attributes option", '<a title="Hello" alt="A">x</a>', {},
           '<a title="T[Hello]" alt="A">x</a>', [[("Hello", "Hello", None, None, None)]], opts={"implicit_i18n_attributes": ["title"]})
     check("implicit attributes option off", '<a title="Hello">x</a>', {}, '<a title="Hello">x</a>', [[]])
+    # every combination: attribute {title, alt} x {not named, named without id, named with id} x implicit option
+    # {off, title, alt, both} x value {static, tal:attributes, interpolated}
+    import itertools
+    for spec_t, spec_a, implicit, how in itertools.product(("none", "plain", "id"), ("none", "plain", "id"),
+                                                           ((), ("title",), ("alt",), ("title", "alt")), ("static", "dynamic", "interp")):
+        specs = {"title": spec_t, "alt": spec_a}
+        texts = {"title": "Hello", "alt": "Logo"}
+        parts = [n + (" %s-id" % n if specs[n] == "id" else "") for n in ("title", "alt") if specs[n] != "none"]
+        ia = ' i18n:attributes="%s"' % "; ".join(parts) if parts else ""
+        if how == "static":
+            src = '<a title="Hello" alt="Logo"%s i18n:domain="d">x</a>' % ia
+        elif how == "dynamic":
+            src = '<a title="old" alt="old" tal:attributes="title t; alt a"%s i18n:domain="d">x</a>' % ia
+        else:
+            src = '<a title="${t}" alt="Lo${g}"%s i18n:domain="d">x</a>' % ia
+        want_calls, outs = [], {}
+        for n in ("title", "alt"):
+            if specs[n] == "id":
+                want_calls.append((n + "-id", texts[n], "d", None, None))
+                outs[n] = "T[%s-id]" % n
+            elif specs[n] == "plain" or (n in implicit and how == "static"):
+                want_calls.append((texts[n], texts[n], "d", None, None))
+                outs[n] = "T[%s]" % texts[n]
+            elif n in implicit and how == "interp" and n == "alt":
+                # (title="${t}" has no static text of its own: nothing to translate implicitly)
+                # implicit translation of an interpolated attribute: the message id is the text with its ${name}
+                # placeholders, the values travel in the mapping
+                want_calls.append(("Lo${g}", None, "d", None, None))
+                outs[n] = "T[%s]" % texts[n]
+            else:
+                outs[n] = texts[n]
+        check("attributes %s / implicit %s / %s" % (specs, list(implicit), how), src, {"t": "Hello", "a": "Logo", "g": "go"},
+              '<a title="%s" alt="%s">x</a>' % (outs["title"], outs["alt"]), [want_calls],
+              opts={"implicit_i18n_attributes": list(implicit)} if implicit else None)
     # dynamic content with i18n:translate=""
     check("dynamic content", '<a tal:content="v" i18n:translate="" i18n:domain="d">old</a>', {"v": "Val"},
           '<a>T[Val]</a>', [[("Val", None, "d", None, None)], [("Val", "Val", "d", None, None)]])
